@@ -193,7 +193,10 @@ class C01(Prop):
     ]
 
     def model_runs(self, tier):
-        return [{"module": "Render", "cfg": f"Render_{tier}.cfg"}]
+        runs = [{"module": "Render", "cfg": f"Render_{tier}.cfg"}]
+        if tier == "thorough":
+            runs.append({"module": "Render", "cfg": "Render_sim.cfg", "simulate": "num=20000", "depth": 14, "export": False, "timeout": 900})
+        return runs
 
     def nontrivial(self, rec):
         def walk(t):
